@@ -20,6 +20,28 @@ namespace TF.Engine
 @[simp] theorem R.map_panic' {α β} (s) (f : α → β) : (R.panic s).map f = .panic s := rfl
 @[simp] theorem R.map_fuel' {α β} (f : α → β) : (R.fuel).map f = .fuel := rfl
 
+/-- pointwise relation between two lists of the same length -/
+inductive ListRel {α β : Type} (Rel : α → β → Prop) : List α → List β → Prop
+  | nil : ListRel Rel [] []
+  | cons {a b l l'} : Rel a b → ListRel Rel l l' → ListRel Rel (a :: l) (b :: l')
+
+theorem ListRel.map_eq {α β γ : Type} {Rel : α → β → Prop} {f : α → γ} {g : β → γ}
+    {l : List α} {l' : List β} (h : ListRel Rel l l') (hfg : ∀ a b, Rel a b → f a = g b) :
+    l.map f = l'.map g := by
+  induction h with
+  | nil => rfl
+  | cons hr _ ih => simp [hfg _ _ hr, ih]
+
+theorem ListRel.mem_right {α β : Type} {Rel : α → β → Prop} {l : List α} {l' : List β}
+    (h : ListRel Rel l l') {b : β} (hb : b ∈ l') : ∃ a ∈ l, Rel a b := by
+  induction h with
+  | nil => cases hb
+  | cons hr _ ih =>
+    rcases List.mem_cons.mp hb with rfl | hb
+    · exact ⟨_, by simp, hr⟩
+    · obtain ⟨a, ha, hr'⟩ := ih hb
+      exact ⟨a, by simp [ha], hr'⟩
+
 def Safe (G : Prop) {β : Type} (Q : β → Prop) : R β → Prop
   | .ok b => Q b
   | .fuel => True
@@ -142,9 +164,9 @@ theorem flatMapR {P : α → Prop} {Q : β → Prop} {f : α → R (List β)} {l
 /-- `mapR` with the pointwise relation between inputs and outputs -/
 theorem mapR_rel {P : α → Prop} {Rel : α → β → Prop} {f : α → R β} {l : List α}
     (h : ∀ x ∈ l, P x → Safe G (Rel x) (f x)) (hl : ∀ x ∈ l, P x) :
-    Safe G (fun ys => List.Forall₂ Rel l ys) (TF.Engine.mapR f l) := by
+    Safe G (fun ys => ListRel Rel l ys) (TF.Engine.mapR f l) := by
   induction l with
-  | nil => simp [TF.Engine.mapR]
+  | nil => exact ListRel.nil
   | cons x xs ih =>
     have hx := h x (by simp) (hl x (by simp))
     have ih' := ih (fun y hy => h y (by simp [hy])) (fun y hy => hl y (by simp [hy]))
@@ -155,7 +177,7 @@ theorem mapR_rel {P : α → Prop} {Rel : α → β → Prop} {f : α → R β} 
       cases hm : TF.Engine.mapR f xs with
       | ok ys =>
         rw [hm] at ih'
-        exact List.Forall₂.cons hx ih'
+        exact ListRel.cons hx ih'
       | panic s => rw [hm] at ih'; exact ih'
       | fuel => trivial
     | panic s => rw [hfx] at hx; exact hx
